@@ -1,7 +1,7 @@
 (* C03 - codon-level mutators act on exactly the in-frame codons inside the region.
    Only statements, closed by `exact`, and their assumptions. *)
 From VV Require Import Model.Base Model.Pattern Model.Seq Model.CodonTable Model.Transcript Model.Mutators
-  Spec.PatternSpec Spec.CodonSpec Proofs.CodonTableProofs Proofs.CodonProofs Generated.KernelsFrame Proofs.KernelFrameEquiv.
+  Spec.PatternSpec Spec.CodonSpec Spec.RegionSpec Proofs.CodonTableProofs Proofs.CodonProofs Proofs.RegionProofs Generated.DefaultTable Generated.KernelsFrame Proofs.KernelFrameEquiv.
 
 (* the codon windows produced for a region cut by Transcript._get_cds_seq are exactly the triplets of the annotated
    reading frame (strand-aware, from the GTF frame of the exon) whose three bases lie inside the region: every frame,
@@ -57,6 +57,45 @@ Theorem C03_codon_rows_in_region : forall s e r p b alt,
   is_region_codon s e r p -> zlen b = 3 -> in_region r (mkVar p b alt) = true.
 Proof. exact codon_rows_in_region. Qed.
 
+(* snvre, per region, against the annotated frame: the rows kept by get_vars_in_region are exactly the whole-codon replacements,
+   at an in-frame codon lying inside the region, that the SNVRE rule allows for one of the nine SNVs of that codon.
+   (Rows for a codon that only partly lies in the region are generated but dropped: `in_region`.) *)
+Theorem C03_snvre_region_exact : forall tr tb q e r c vs,
+  get_cds_seq_exon tr q e r = Ok c -> 0 <= rs r <= re r -> s_start q <= rs r -> re r - s_start q + 1 <= s_len q ->
+  snvre_variants tb c = Ok vs ->
+  forall v, (In v vs /\ in_region r v = true) <-> is_snvre_row tb (t_strand tr) e r c v.
+Proof. exact snvre_region_exact. Qed.
+
+(* the whole region: a (label, mutation) pair is among the rows emitted for a coding region and kept by get_vars_in_region
+   iff a configured mutator (snvre brings snv with it) has that label and the mutation is one of its documented rows
+   (Spec.RegionSpec.row_spec) lying inside the region: nothing missing, nothing extra, for every mutator combination *)
+Theorem C03_region_rows_exact : forall tr tb q e r c ms plain annotated,
+  get_cds_seq_exon tr q e r = Ok c -> 0 <= rs r <= re r -> s_start q <= rs r -> re r - s_start q + 1 <= s_len q ->
+  (forall k, In k ms -> kind_wf k) ->
+  region_variants_cds tb c ms = Ok (plain, annotated) ->
+  forall lbl v, row_of (keep_in_region r (plain ++ annotated)) lbl v <->
+    exists k, In k (with_dependents ms) /\ label_of k = lbl /\ row_spec tb (t_strand tr) e r c k v /\ in_region r v = true.
+Proof. exact region_rows_exact. Qed.
+
+(* for the codon-level mutators the side condition `in_region` is implied *)
+Theorem C03_codon_row_in_region : forall tr q e r c v,
+  get_cds_seq_exon tr q e r = Ok c -> s_start q <= rs r -> re r - s_start q + 1 <= s_len q ->
+  codon_row (t_strand tr) e r c v -> in_region r v = true.
+Proof. exact codon_row_in_region. Qed.
+
+(* non-vacuity: the same minus-strand region with every codon-level mutator configured yields rows of each kind *)
+Example C03_region_example :
+  let tr := mkTr Minus [mkEx 10 19 1 1; mkEx 30 37 0 0] in
+  let q := mkSeq 1 (d "ACGTACGTAGGCTTAACCGGATATATTTGCAGCATGCAAAA") in
+  match get_cds_seq_exon tr q (mkEx 10 19 1 1) (mkRange 12 18) with
+  | Ok c => match region_variants_cds (from_list default_rows true) c [MSnvRe; MInframe; MAla; MStop; MAa; MDelK 2 0] with
+            | Ok (plain, annotated) => (length plain >= 5 /\ length annotated >= 60)%nat
+            | Err _ => False
+            end
+  | Err _ => False
+  end.
+Proof. vm_compute. lia. Qed.
+
 (* minus strand: lookups in the reverse-complemented table are the reverse complements of the lookups in the
    plain table, i.e. alternative codons are reported in genomic plus-strand orientation *)
 Theorem C03_minus_strand_orientation : forall rows a c,
@@ -98,6 +137,9 @@ Print Assumptions C03_top_replacement_exact.
 Print Assumptions C03_aa_exact.
 Print Assumptions C03_snvre_rule_exact.
 Print Assumptions C03_snvre_rows_exact.
+Print Assumptions C03_snvre_region_exact.
+Print Assumptions C03_region_rows_exact.
+Print Assumptions C03_codon_row_in_region.
 Print Assumptions C03_codon_rows_in_region.
 Print Assumptions C03_minus_strand_orientation.
 Print Assumptions C03_noncoding_refused.
